@@ -672,6 +672,8 @@ var c10Receivers = map[string][]c10Recv{
 		{Name: "“a”", Mk: func() r.Element { return value.NewString("a") }},
 		{Name: "“你好”", Mk: func() r.Element { return value.NewString("你好") }},
 		{Name: "“12”", Mk: func() r.Element { return value.NewString("12") }},
+		// a text as a file in another encoding delivers it: stray bytes between the characters
+		{Name: "“a\\xff你\\xc3”", Mk: func() r.Element { return value.NewString("a\xff你\xc3") }},
 	},
 	"Array": {
 		{Name: "【】", Len: 0, Mk: func() r.Element { return value.NewArray([]r.Element{}) }},
@@ -1437,6 +1439,43 @@ var c10Runaway = []string{
 	"如何深？\n    输入表\n    输出（深：【表】）\n输出（深：【】）",
 }
 
+// objects that point at each other (or at themselves), held by a collection that is stored,
+// copied, compared, shown or serialised: a value or a Zn error, never the end of the host process
+func c10CyclicObjects() []string {
+	pre := []string{
+		"定义节：\n    其邻 = 空\n    其下 = 【】\n令甲 = （新建节）\n令乙 = （新建节）\n甲之邻 = 乙\n乙之邻 = 甲\n",
+		"定义节：\n    其邻 = 空\n    其下 = 【】\n令甲 = （新建节）\n令乙 = 甲\n甲之邻 = 甲\n",
+		"定义节：\n    其邻 = 空\n    其下 = 【】\n令甲 = （新建节）\n令乙 = （新建节）\n乙之邻 = 甲\n以甲之下（后增：乙）\n",
+	}
+	uses := []string{
+		"令表 = 【】\n以表（后增：【甲，乙】）\n输出表之长度",
+		"令表 = 【1】\n以表（前增：【乙】）\n输出表之长度",
+		"令表 = 【1】\n以表（合并：【【甲】】）\n输出表之长度",
+		"令表 = 【1】\n以表（新增：1、【甲】）\n输出表之长度",
+		"令典 = 【=】\n以典（写入：“k”、【甲，乙】）\n输出典之数目",
+		"令典 = 【=】\n典#“k” = 【k = 甲】\n输出典之数目",
+		"令表 = 【0】\n表#1 = 【甲】\n输出表之长度",
+		"令表 = 【甲，乙】\n令另 = 表\n输出另之长度",
+		"令表 = 【甲之下，乙之下】\n输出表之长度",
+		"输出【甲】 为 【乙】",
+		"输出以【【甲】】（包含：【乙】）",
+		"（显示：【甲，乙】）\n输出1",
+		"输出“{}” % 【【甲】】",
+		"导入《@JSON》\n输出（生成JSON：【k = 【1】】）",
+	}
+	var out []string
+	for _, p := range pre {
+		for _, u := range uses {
+			if strings.HasPrefix(u, "导入") {
+				out = append(out, "导入《@JSON》\n"+p+strings.TrimPrefix(u, "导入《@JSON》\n"))
+				continue
+			}
+			out = append(out, p+u)
+		}
+	}
+	return out
+}
+
 var c10BodyUses = []string{
 	"输出%s", "输出【%s】", "令丁 = %s\n输出丁", "输出%s + 1", "如果%s：\n    输出1\n输出2", "输出%s之文本",
 	"输出【K = %s】", "输出%s 为 空", "（显示：%s）\n输出3", "输出“{}” %% 【%s】", "令丁 = 【%s】\n输出丁", "输出（F2：%s）",
@@ -1463,6 +1502,9 @@ func c10Sources(tier string, fn func(kind, src string)) {
 	}
 	for _, src := range c10Runaway {
 		fn("runaway", src)
+	}
+	for _, src := range c10CyclicObjects() {
+		fn("cyclic-objects", src)
 	}
 	// the same operation first with fitting operands, then with operands that do not fit
 	// (whatever the first use left behind): a Zn error, not a crash
@@ -1813,6 +1855,9 @@ func c10Run(c *mc.Ctx) {
 			return
 		}
 		c.CaseIdx(idx)
+		if cur.Kind == "runaway" {
+			c.AllowSlow(150) // down to the interpreter's own depth limit: seconds when idle, far more under load
+		}
 		v := c10Exec(&cur, e)
 		c.Eval(!v.trivial)
 		c.Stat(statName, 1)
